@@ -32,7 +32,7 @@ def _normal_queue(c, shape):
     return z
 
 
-def gaussian_affine(c, param, form, n=2, N=1):
+def gaussian_affine(c, param, form, n=2, N=1, scale=None):
     mean = c.vec('m', n)
     if form == 'scalar': arg = c.real('v', pos=True)
     elif form == 'vector': arg = c.vec('v', n, pos=True)
@@ -50,6 +50,8 @@ def gaussian_affine(c, param, form, n=2, N=1):
         import scipy.sparse as sp
         M = np.array([[a, b], [0.0, d_]], dtype=object if c.sym else float)
         arg = shims.STag(M) if c.sym else sp.csr_matrix(M)
+    if scale is not None: mean = np.zeros(n)            # (no cancellation against a mean of another magnitude in the comparison below)
+    if scale is not None: arg = arg * scale            # (native only) matrices of very small / very large magnitude: absolute tolerances must not decide their structure
     g = Gaussian(mean, **{param: arg})
     e = _normal_queue(c, (n, N))
     s = g._sample(N)
@@ -427,6 +429,9 @@ def jobs(tier):
     for form in ('lower', 'upper', 'full', 'sparse_upper'):
         J.append(Job(f'Gaussian._sample:sqrtprec:{form}:N=1', lambda c, f=form: gaussian_affine(c, 'sqrtprec', f, 2, 1), 'Pbox', GS, timeout=300))
     J.append(Job('Gaussian._sample:after_sqrtprec_reassignment', gaussian_reassign, 'Pbox', GS))
+    for param in ('sqrtprec', 'sqrtcov', 'cov'):
+        for sc in (1e-9, 1e9):
+            J.append(Job(f'Gaussian._sample:{param}:full:magnitude={sc:g}', lambda c, p_=param, sc=sc: gaussian_affine(c, p_, 'full' if p_ != 'cov' else 'dense_sym', 2, 2, sc), 'B', GS, nnum=4))
     mods = dict(Normal='_normal', Laplace='_laplace', Uniform='_uniform', Gamma='_gamma', Beta='_beta', InverseGamma='_inverse_gamma', Cauchy='_cauchy', Lognormal='_lognormal', Gaussian='_gaussian', GMRF='_gmrf')
     for fam in ('Normal', 'Laplace', 'Uniform', 'Gamma', 'Beta', 'InverseGamma', 'Cauchy'):
         J.append(Job(f'{fam}._sample:generator_denotes_own_density', lambda c, f=fam: law_tag(c, f), 'Pbox', [f'{D}.{mods[fam]}:{fam}._sample'], num=False))
